@@ -148,10 +148,12 @@ Definition py_eq (a b : pyval) : pyval := VBool (py_eqb a b).
 Definition py_ne (a b : pyval) : pyval := VBool (negb (py_eqb a b)).
 Definition py_is_none (v : pyval) : pyval := match v with VNone => VBool true | _ => VBool false end.
 Definition py_is_not_none (v : pyval) : pyval := match v with VNone => VBool false | _ => VBool true end.
+(* v in l: membership in a list, substring of a string (other right operands: not modelled, False) *)
 Definition py_in (v : pyval) (l : pyval) : pyval :=
-  match l with
-  | VList l => VBool (py_in_list v l)
-  | _ => VBool false
+  match l, v with
+  | VList l, _ => VBool (py_in_list v l)
+  | VStr s, VStr x => VBool (contains s x)
+  | _, _ => VBool false
   end.
 
 Definition num_of (v : pyval) : option Z :=
